@@ -249,7 +249,7 @@ def function_test_case(r) -> dict:
 def run_session(case: dict) -> list:
     """[(prog as run, build+obs)] — every function against an empty cluster and then a drifted live object"""
     progs = with_prefix(case["session"], fresh_prefix())
-    per_pass = any(p.get("functionTest") for p in progs) and not case.get("reuseKind")
+    per_pass = any(p.get("functionTest") for p in progs)
     out = []
     for first in (True, False):
         if per_pass and not first:
